@@ -96,6 +96,8 @@ def shards(tier, seed):
         # arrays of strings: the element is a structure whose data area is 4 bytes smaller than the element
         for cap in (82, 20, 1):
             sh.append(("ladder", S, "v32" if cap == 20 else "v20", None, ("str", cap), 3))
+        # controllers older than the large connection (firmware below 20) that nevertheless grant whatever is asked, and the first call of a driver
+        sh += [("mixed", S, "v17"), ("mixed", S, "v18"), ("ladder", S, "v18", "SINT", None, 3), ("first-call", S, "m800"), ("first-call", S, "v32")]
         for ss in big_element_sizes(S):
             sh.append(("ladder", S, "v20" if ss % 8 else "v32", None, ss, 3, "big"))
     return sh
@@ -229,6 +231,55 @@ def run_shard(shard, tier, seed):
                     tg.data[:] = keep
         rep.sample({"config": cfg, "tags": len(tags), "sizes": f"{tags[0].nbytes}..{tags[-1].nbytes}"})
         call(d.close)
+        w.__exit__()
+    elif kind == "first-call":
+        # a second driver that takes its tag definitions from the first (plc2._tags = plc1.tags, init_tags=False): on a Micro800 nothing
+        # connected happens during open(), so the transfer itself is what opens the connection and learns its size
+        import pycomm3
+
+        _, S, pers = shard[:3]
+        proj, ctl, t, w, d, r = build_world(S, "SINT", None, 3, pers, choices=(), tier=tier)
+        cfg = (S, pers, "first-call")
+        if r != ("ok", True):
+            rep.violation("size/open-failed", f"{cfg}: open() -> {r!r:.120}", {"shard": list(shard), "tag": None, "op": "open", "path": None, "choices": []})
+            w.__exit__()
+            return rep
+        tags_def = d.tags
+        call(d.close)
+        for tg in [x for x in proj.user_tags() if x.name != "small"]:
+            n, total = tg.elements, tg.nbytes
+            text = f"{tg.name}{{{n}}}" if n > 1 else tg.name
+            for op in ("read", "write", "read-list", "write-list"):
+                d2 = pycomm3.LogixDriver("10.0.0.1", init_tags=False)
+                d2._tags = tags_def
+                o = call(d2.open)
+                pre = proj.snapshot()
+                ctl.svc_log.clear()
+                n_ev = len(t.events)
+                vals = [((i * 5 + 1) % 100) for i in range(n)]
+                value = vals if n > 1 else vals[0]
+                if op == "read":
+                    out = call(d2.read, text)
+                elif op == "write":
+                    out = call(d2.write, text, value)
+                elif op == "read-list":
+                    out = call(d2.read, "small", text)
+                else:
+                    out = call(d2.write, ("small", 3), (text, value))
+                probs = transfer_problems(ctl, t, n_ev, tg.full_name, total, "read" if op.startswith("read") else "write")
+                res = out[1] if out[0] == "ok" else None
+                good = out[0] == "ok" and (all(bool(x) for x in res) if isinstance(res, list) else bool(res))
+                if o != ("ok", True):
+                    probs.append(("open-failed", f"open() of the second driver -> {o!r:.80}"))
+                elif not good:
+                    probs.append(("failed", f"{out!r:.120}"))
+                proj.restore(pre)
+                call(d2.close)
+                rep.case((cfg, tg.name, op), outcome=f"ok:first-call/{op}" if not probs else probs[0][0])
+                for clause, detail in probs[:2]:
+                    rep.violation(f"first-call/{op}/{clause}", f"{cfg}: {op} of {text!r} ({total} data bytes) as the first connected operation of a driver: {detail}",
+                                  {"shard": list(shard), "tag": tg.name, "op": op, "path": "first-call", "choices": []})
+        rep.sample({"config": cfg, "sizes": len(proj.user_tags()) - 1})
         w.__exit__()
     else:
         _, S, pers = shard[:3]
